@@ -7,6 +7,7 @@ RULE = ("prim <mode> <content> int <ty>: all contents of length 0-2 x 10 accesso
         "(head octets from {00,01,7f,80,81,fe,ff}^2, extreme and random tails); int.enc: all i8/u8/i16/u16 values, every bit-length "
         "class +-2 of the wider types, random; bool/null contents; skip_u8_if / Content::skip_u8_if on (expected, content) pairs. "
         "non-trivial = accepted by the implementation.")
+CROSS = {'C04': 2000, 'C15': 1000, 'C07': 1500}   # cross streams: samples of neighbouring properties' request streams (outcomes, model <-> implementation)
 EXHAUSTIVE = {"quick": False, "thorough": False}
 EXHAUSTIVE_NOTE = {"quick": "decoders: all contents of <= 2 octets x 10 accessors x 3 modes; encoders: all 8- and 16-bit values",
                    "thorough": "decoders: all contents of <= 3 octets (3 modes for <=2, DER for 3); encoders additionally all values below 2^20 of every wider type"}
